@@ -11,11 +11,19 @@
       agree with its end offset (`line_col_agree`); tokens added under the `_scan` phase discipline (`InvS`/`InvC`) are strictly
       ordered, non-overlapping, non-empty and inside the input (`tokens_ordered`, `tokens_inside`);
     * `highlight_sql` with one position (what `Parser.raise_error` passes) selects exactly s[a..b] with the stated contexts.
-  NOT proved in Lean (checked by exact model-vs-implementation correspondence and by the search oracle instead): that every
-  control path of `lex` follows the phase discipline (each iteration: set `_start` ≥ current, advance, at most one `_add`),
-  and the gap/coverage clause for whole runs.
+  WHOLE-RUN theorems (round 2): for every configuration and every input whose shipped character classes satisfy `WF`
+  (blanks/CR/LF are isspace, alphanumerics are never CR/LF — validated exhaustively against CPython by the harness), whenever the
+  model's `lex cfg sql` returns tokens: `lex_tokens_ordered`, `lex_tokens_inside`, `lex_line_col_agree` (for runs in which no jump
+  skipped a line break), `gaps_are_space_or_comment` (every offset of the input is whitespace, inside a token, or inside a region
+  consumed by `_scan_comment`), `lex_progress` (each `_scan` iteration strictly advances the cursor).
+  NO-SKEW (round 2): for a configuration that passes the decidable hygiene test `cleanCfg` (the three position repairs are in
+  the code; no delimiter contains CR/LF; no start delimiter contains a blank) no jump of any run passes over a line break
+  (`lex_never_skews`), hence `lex_line_col_exact` holds unconditionally.  `base_cfg_clean` decides the test for the generated base
+  configuration; the driver evaluates the same Lean function on every dialect's shipped configuration on each run.
+  Still NOT proved: that the inner loops never exhaust their fuel (`lex` never answers `fuel`), and that a comment span starts
+  with a comment delimiter of the configuration.
 -/
-import SqlglotModel.Proofs.Lex
+import SqlglotModel.Proofs.LexSkew
 import SqlglotModel.Generated.C13
 
 namespace SqlglotModel.Properties.C13
@@ -34,12 +42,9 @@ theorem advance_one_pinv (sql : Sql) (st st' : St) (hP : PInv sql st) (h : advan
 /-- a run that ends with `skew = false` never jumped over a CR/LF: `advance` only ever switches the flag on -/
 theorem advance_skew_mono (sql : Sql) (st st' : St) (i : Nat) (h : advance sql st i = .ok st') (hs : st'.skew = false) :
     st.skew = false ∧ hasNL sql st.current (i - 1) = false := by
-  unfold advance at h
-  simp only at h
-  split at h
-  · cases h
-  · injection h with h; subst h
-    simpa [Bool.or_eq_false_iff] using hs
+  obtain ⟨_, _, h⟩ := advance_ok h
+  subst h
+  simpa [Bool.or_eq_false_iff] using hs
 
 /-- `_advance(-n)` (the rewind after `12abc`) -/
 theorem retreat_pinv (sql : Sql) (st st' : St) (n : Nat) (hP : PInv sql st)
@@ -88,11 +93,9 @@ theorem tokens_inside (cfg : Cfg) (sql : Sql) (st st' : St) (ty : String) (text 
 /-- the next `_scan` iteration (set `_start` to c ≥ current, advance past it) re-enters the token phase -/
 theorem next_iteration_phase (sql : Sql) (st st' : St) (c i : Nat) (hC : InvC sql st) (hc : st.current ≤ c)
     (h : advance sql { st with start := c } i = .ok st') (hlt : c < st'.current) : InvS sql st' := by
-  unfold advance at h
-  simp only at h
-  split at h
-  · cases h
-  · injection h with h; subst h
+  obtain ⟨_, hle, h⟩ := advance_ok h
+  · subst h
+    simp only at hle
     refine ⟨hlt, by simp only; omega, hC.sorted, ?_⟩
     intro t ht
     have := hC.toks t ht
@@ -130,6 +133,116 @@ theorem highlight_context_bounds (s : List Char) (a b ctx : Nat) (hab : a ≤ b)
   · rw [h4]; simp only [pySlice, List.length_take, List.length_drop]; omega
   · rw [highlight_single s a b ctx hab]
 
+/-! ### whole-run theorems about `lex cfg sql` -/
+
+/-- WHOLE RUN: the tokens of `lex cfg sql` are strictly ordered and non-overlapping -/
+theorem lex_tokens_ordered (cfg : Cfg) (sql : Sql) (st : St) (hW : WF sql) (h : lex cfg sql = .ok st) :
+    st.toks.Pairwise (fun a b => a.stop < b.start) :=
+  (lex_full hW h).1.sorted
+
+/-- WHOLE RUN: every token satisfies 0 ≤ start ≤ end < len(sql) -/
+theorem lex_tokens_inside (cfg : Cfg) (sql : Sql) (st : St) (hW : WF sql) (h : lex cfg sql = .ok st) :
+    ∀ t ∈ st.toks, t.start ≤ t.stop ∧ t.stop < sql.size :=
+  fun t ht => ((lex_full hW h).1.toks t ht).1
+
+/-- WHOLE RUN: if no jump of the run passed over a CR/LF (`skew = false`), every token's line and column are the reference
+    line/column of its end offset (the LF of a CRLF pair counts with the column of its CR, `crlfAdj`) -/
+theorem lex_line_col_agree (cfg : Cfg) (sql : Sql) (st : St) (hW : WF sql) (h : lex cfg sql = .ok st)
+    (hs : st.skew = false) :
+    ∀ t ∈ st.toks, t.line = lineOf sql t.stop ∧ t.col + crlfAdj sql t.stop = colOf sql t.stop :=
+  fun t ht => ((lex_full hW h).1.pi hs).2 t ht
+
+/-- WHOLE RUN: every offset of the input is a whitespace character, lies inside a token, or lies inside a region consumed by
+    `_scan_comment` (ghost `spans`) — so the text between two tokens is only whitespace and comment text -/
+theorem gaps_are_space_or_comment (cfg : Cfg) (sql : Sql) (st : St) (hW : WF sql) (h : lex cfg sql = .ok st) :
+    ∀ p, p < sql.size →
+      isSpaceAt sql p = true ∨ (∃ t ∈ st.toks, t.start ≤ p ∧ p ≤ t.stop) ∨ (∃ s ∈ st.spans, s.1 ≤ p ∧ p ≤ s.2) := by
+  intro p hp
+  obtain ⟨hC, he⟩ := lex_full hW h
+  rcases he with h0 | hcur
+  · omega
+  · exact hC.cov p (by omega)
+
+/-- NO SKEW: with the position repairs in the code and hygienic delimiter tables (`cleanCfg`, decidable), no jump of the
+    tokenizer passes over a CR/LF — the blank jump, digit batches, the alnum batch, delimiter jumps (the keyword-trie walk only
+    reports unfolded text for blank-free keys), escape steps, the keyword jump, the str.find fast path and the rewind -/
+theorem lex_never_skews (cfg : Cfg) (sql : Sql) (st : St) (hC : cleanCfg cfg = true) (hW : WF sql)
+    (h : lex cfg sql = .ok st) : st.skew = false :=
+  lex_sk hC hW h
+
+/-- WHOLE RUN, UNCONDITIONAL for clean configurations: every token's line and column are the reference line/column of its
+    end offset -/
+theorem lex_line_col_exact (cfg : Cfg) (sql : Sql) (st : St) (hC : cleanCfg cfg = true) (hW : WF sql)
+    (h : lex cfg sql = .ok st) :
+    ∀ t ∈ st.toks, t.line = lineOf sql t.stop ∧ t.col + crlfAdj sql t.stop = colOf sql t.stop :=
+  lex_line_col_agree cfg sql st hW h (lex_sk hC hW h)
+
+/-- TABLE FACT: the generated base configuration (flags probed from the live code, delimiter tables from the live classes)
+    passes the hygiene test — this fails to build if one of the three position repairs is reverted -/
+theorem base_cfg_clean : cleanCfg baseCfg = true := by decide +kernel
+
+/-- … and the run consumed the whole input -/
+theorem lex_consumes_input (cfg : Cfg) (sql : Sql) (st : St) (hW : WF sql) (h : lex cfg sql = .ok st) :
+    st.current = sql.size := by
+  rcases (lex_full hW h).2 with h0 | hcur
+  · have := (lex_full hW h).1.le; omega
+  · exact hcur
+
+/-- PROGRESS (also used by C05 as `scan_progress`): one iteration of the `_scan` loop, started between two tokens, strictly
+    advances the cursor and stays inside the input; hence the loop performs at most len(sql) iterations -/
+theorem lex_progress (cfg : Cfg) (sql : Sql) (st st' : St) (hW : WF sql) (hC : CInv sql st)
+    (h : scanStep cfg sql st = .ok st') : st.current < st'.current ∧ st'.current ≤ sql.size ∧ CInv sql st' := by
+  obtain ⟨c, hlt⟩ := scanStep_full hW hC h
+  exact ⟨hlt, c.le, c⟩
+
+/-- `_advance(alnum=True)` keeps the position invariant and never raises `skew` -/
+theorem advance_alnum_pinv (sql : Sql) (st st' : St) (hW : WF sql) (hP : PInv sql st)
+    (h : advanceAlnum sql st = .ok st') : PInv sql st' ∧ st'.skew = st.skew :=
+  advanceAlnum_pinv hW hP h
+
+/-- THE fast-path lemma (∀ input): sql.count / sql.rfind bookkeeping = the reference position of the closing delimiter,
+    provided the literal [pos, e) contains no lone CR and the character at e is not LF -/
+theorem fast_path_position_exact (sql : Sql) (line col pos e : Nat) (hpe : pos ≤ e)
+    (hcr : hasLoneCR sql pos (e - pos) = false) (hd : isLF sql e = false)
+    (hl : line = lineOf sql pos) (hc : col + crlfAdj sql pos = colOf sql pos) :
+    (fastPos sql line col pos e).1 = lineOf sql e ∧ (fastPos sql line col pos e).2 + crlfAdj sql e = colOf sql e :=
+  fastPos_exact hpe hcr hd hl hc
+
+/-- the str.find fast path of `_extract_string` as a whole keeps the position invariant unless it flags `skew`
+    (`skew` is raised exactly for a lone CR inside the literal) -/
+theorem fast_string_pinv (cfg : Cfg) (sql : Sql) (st st' : St) (x : XCfg) (text : List Char)
+    (hc : 1 ≤ st.current) (hP : PInv sql st) (h : fastString cfg sql st x = some (st', text))
+    (hs : st'.skew = false) : PInv sql st' :=
+  (fastString_fw hc h).pinv hs hP
+
+/-- with the lone-CR guard that is now in the code (`fixLoneCR`): the fast path never skews, so its position update is exact
+    for EVERY literal it accepts — the same position the character-by-character slow path reaches -/
+theorem fast_string_exact_when_fixed (cfg : Cfg) (sql : Sql) (st st' : St) (x : XCfg) (text : List Char)
+    (hfix : cfg.fixLoneCR = true) (hd : x.delim ≠ ['\n']) (hc : 1 ≤ st.current) (hP : PInv sql st)
+    (hs : st.skew = false) (h : fastString cfg sql st x = some (st', text)) :
+    PInv sql st' ∧ st'.skew = false := by
+  have hsk := fastString_fixed_skew hfix hd h
+  have hs' : st'.skew = false := by rw [hsk]; exact hs
+  exact ⟨(fastString_fw hc h).pinv hs' hP, hs'⟩
+
+/-- ASCII inputs satisfy the character-class hypothesis (so the whole-run theorems are not vacuous) -/
+theorem ascii_wf (s : String) : WF (asciiSql s) := by
+  intro j ch hj
+  have hmem : ∃ c, ch = asciiCh c := by
+    unfold asciiSql at hj
+    rw [List.getElem?_toArray, List.getElem?_map] at hj
+    cases hc : s.toList[j]? with
+    | none => rw [hc] at hj; cases hj
+    | some c => rw [hc] at hj; exact ⟨c, by cases hj; rfl⟩
+  obtain ⟨c, rfl⟩ := hmem
+  constructor
+  · intro h
+    simp only [asciiCh] at h ⊢
+    rcases h with h | h | h | h <;> simp [h]
+  · intro h
+    simp only [asciiCh, Bool.or_eq_true, Bool.and_eq_true, decide_eq_true_eq, isDigit] at h ⊢
+    constructor <;> intro hc <;> subst hc <;> revert h <;> decide
+
 /-! ### non-vacuity and witnesses (complete evaluations of the model on concrete inputs, `decide +kernel`) -/
 
 /-- the hypotheses of `highlight_selects` are satisfiable and the result is the expected lexeme -/
@@ -143,6 +256,11 @@ example :
       (fun r => (r.1, r.2.length, r.2.all (fun t => t.2.1 == t.2.2.2.2.2.1 && t.2.2.1 == t.2.2.2.2.2.2)))
       = some (false, 6, true) := by decide +kernel
 
+/-- the hypotheses of the whole-run theorems are satisfiable: a concrete run returns tokens on a WF input -/
+example : WF (asciiSql "select a\r\n , 'x\ny' -- c\rfrom t") ∧
+    (runSummary baseCfg "select a\r\n , 'x\ny' -- c\rfrom t").isSome = true :=
+  ⟨ascii_wf _, by decide +kernel⟩
+
 /-- CLEAN-TREE DEFECT 1 (DESIGN §6): a lone CR inside a simple string literal.  With the str.find fast path as it is today
     the string and the following token are reported on line 1; their end offsets are on line 2
     (entries: type, line, col, start, end, reference line, reference col). -/
@@ -151,7 +269,7 @@ theorem fast_string_lone_cr_witness :
       some (true, [("STRING", 1, 5, 0, 4, 2, 2), ("VAR", 1, 7, 6, 6, 2, 4)])) = true := by decide +kernel
 
 /-- … and with the fast path declining literals that contain a CR (pending_fixes/C13-lone-cr.diff) the slow path is exact -/
-theorem fast_string_pinv :
+theorem fast_string_fixed_witness :
     (runSummary { baseCfg with fixLoneCR := true } "'a\rb' x" ==
       some (false, [("STRING", 2, 2, 0, 4, 2, 2), ("VAR", 2, 4, 6, 6, 2, 4)])) = true := by decide +kernel
 
